@@ -52,17 +52,22 @@ class SingleFieldSubscriptionsRule(ValidationRule):
                 for definition in document.definitions
                 if isinstance(definition, FragmentDefinitionNode)
             }
-            grouped_field_set, _new_defer_usages, forbidden_directive_instances = (
-                collect_fields(
-                    schema,
-                    fragments,
-                    variable_values,
-                    subscription_type,
-                    node,
-                    self.context.hide_suggestions,
-                    True,
+            try:
+                grouped_field_set, _new_defer_usages, forbidden_directive_instances = (
+                    collect_fields(
+                        schema,
+                        fragments,
+                        variable_values,
+                        subscription_type,
+                        node,
+                        self.context.hide_suggestions,
+                        True,
+                    )
                 )
-            )
+            except GraphQLError:
+                # invalid directive arguments (e.g. on @skip, @include or @defer)
+                # are reported by the rules validating arguments and values
+                return
             if forbidden_directive_instances:
                 self.report_error(
                     GraphQLError(
